@@ -576,3 +576,17 @@ def cas_loop_fresh(R, fn, cas, key, why=''):
     R.ob('LOOP', key, not stale, 'every input of the CAS `new` value that reads the loop-carried current value is recomputed inside the retry loop%s; %s' % (
         '' if not stale else ' -- computed once before the loop: ' + ', '.join(s.where for s in stale), why), cas.where, fn)
     return not stale
+
+
+def cas_loops_fresh(R, F, fn_pat, floor, why):
+    """LOOP-FRESH over every compare_exchange retry loop of the functions matching `fn_pat`; `floor` = number of loops confirmed by hand."""
+    n = 0
+    for f in F.find_fns(fn_pat):
+        for a in f.atomic_ops():
+            if not a.op.startswith('compare_exchange'):
+                continue
+            r = cas_loop_fresh(R, f, a.site, 'LOOP::%s::%s::CAS-inputs-recomputed-per-iteration' % (fnkey(f), a.recv.split('.')[-1].split('(')[0]), why)
+            if r is not None:
+                n += 1
+    R.floor('compare_exchange retry loops (%s)' % fn_pat[:60], n, floor)
+    return n
